@@ -15,13 +15,35 @@ package main
 import (
 	"fmt"
 	"os"
+	"runtime"
 	"strconv"
 	"testing"
 
 	_ "verifharness/internal/quiet"
 )
 
+// contention: C16_BUSY=<n> starts n goroutines outside the synctest bubbles that keep the scheduler busy
+// (spinning and yielding), so that a replayed racy case meets other interleavings of the krt goroutines than
+// an idle machine gives it (GOMAXPROCS is varied by the caller).
+func contention() {
+	n, _ := strconv.Atoi(os.Getenv("C16_BUSY"))
+	for i := 0; i < n; i++ {
+		go func(i int) {
+			x := uint64(i) + 1
+			for {
+				for k := 0; k < 2000+137*i; k++ {
+					x = x*6364136223846793005 + 1442695040888963407
+				}
+				if x%3 == 0 {
+					runtime.Gosched()
+				}
+			}
+		}(i)
+	}
+}
+
 func inTest(f func(t *testing.T)) {
+	contention()
 	os.Args = os.Args[:1]
 	testing.Init()
 	testing.Main(func(pat, str string) (bool, error) { return true, nil },
